@@ -1896,6 +1896,12 @@ class H2Connection:
         This frame can optionally be received either on a stream or on stream
         0, and its semantics are different in each case.
         """
+        if not self.config.client_side:
+            # Servers ignore ALTSVC frames (RFC 7838 Section 4). In particular
+            # the frame must not make an idle server-side connection look
+            # like a client connection to the state machine.
+            return [], []
+
         events = self.state_machine.process_input(
             ConnectionInputs.RECV_ALTERNATIVE_SERVICE
         )
